@@ -1007,4 +1007,66 @@ def runAsyncCfg (dflt : Bool) (w : World) (cfg : Option Val) (sched : List Nat) 
   | some (.error e) => some (.error e)
   | some (.ok cs) => some (.ok (runAsync (cs.map (RawCommand.toA w)) sched))
 
+/-! ## Histories in one process: modules imported, configuration set, steps run
+
+The encoding a saving command's output is decoded with is `encoding if encoding else
+config.default_cmd_encoding`, read WHEN THE COMMAND OBJECT IS BUILT — i.e. when the step runs — not when a module
+of the command steps was imported. A process's life, as far as this is concerned, is a list of `HOp`s. -/
+
+/-- The two encoding settings of the configuration object (`None` = the system's default). -/
+structure EncCfg where
+  cmdEnc : Option String       -- config.default_cmd_encoding: output of command steps
+  fileEnc : Option String      -- config.default_encoding: files; never used for command output
+  deriving Repr, DecidableEq
+
+inductive HOp where
+  /-- `import pypyr.subproc` / `pypyr.steps.cmd` / `pypyr.steps.shell` / …: reads nothing that sticks. -/
+  | imp (mod : String)
+  /-- `config.default_cmd_encoding := v` — by `config.init()` finding the key in a config file, or by assignment. -/
+  | setCmdEnc (v : Option String)
+  /-- `config.default_encoding := v` (same two ways). -/
+  | setFileEnc (v : Option String)
+  /-- A cmd / shell step runs commands whose maps carry these `encoding` values (`none`: no such key). -/
+  | run (own : List (Option String))
+  deriving Repr, DecidableEq
+
+def HOp.isImp : HOp → Bool
+  | .imp _ => true
+  | _ => false
+
+def HOp.setsCmdEnc : HOp → Bool
+  | .setCmdEnc _ => true
+  | _ => false
+
+/-- `encoding if encoding else config.default_cmd_encoding` (an empty string is falsy). -/
+def encInForce (cfg : EncCfg) (own : Option String) : Option String :=
+  match own with
+  | some e => if e = "" then cfg.cmdEnc else some e
+  | none => cfg.cmdEnc
+
+def HOp.apply (cfg : EncCfg) : HOp → EncCfg
+  | .setCmdEnc v => { cfg with cmdEnc := v }
+  | .setFileEnc v => { cfg with fileEnc := v }
+  | _ => cfg
+
+/-- The configuration after a history. -/
+def cfgAfter (cfg : EncCfg) (ops : List HOp) : EncCfg := ops.foldl HOp.apply cfg
+
+/-- For every `run` of the history, in order: the encoding each of its commands' output is decoded with. -/
+def runHist (cfg : EncCfg) : List HOp → List (List (Option String))
+  | [] => []
+  | .run own :: ops => own.map (encInForce cfg) :: runHist cfg ops
+  | op :: ops => runHist (op.apply cfg) ops
+
+/-- A saving text-mode command of a history run: whether what its process writes is text depends on the encoding it
+    is read with — `isText enc id`, the codec library's verdict — and that is the encoding in force when the step runs. -/
+def histCommand (isText : Option String → Nat → Bool) (cfg : EncCfg) (x : Option String × Proc) : SCommand :=
+  { run := [{ x.2 with decodeFails := !isText (encInForce cfg x.1) x.2.id }], save := true, text := true,
+    enc := (encInForce cfg x.1).isSome }
+
+/-- The step run after the history `pre`. -/
+def histStep (isText : Option String → Nat → Bool) (cfg : EncCfg) (pre : List HOp)
+    (cmds : List (Option String × Proc)) : SerialObs :=
+  runSerial (cmds.map (histCommand isText (cfgAfter cfg pre)))
+
 end Pypyr.Cmd
